@@ -4,8 +4,10 @@ import Tuc.Model.Stream
 import Tuc.Model.Lines
 import Tuc.Model.Chars
 import Tuc.Model.Args
+import Tuc.Model.Faults
 import Tuc.Spec.Record
 import Tuc.Spec.Lines
+import Tuc.Spec.Grammar
 /-!
 # Driver — line protocol front end of the executable model
 
@@ -167,8 +169,20 @@ def runCut (kv : Kv) : String :=
   | .ok opt =>
     let input := (kv.optBytes "in").getD []
     if opt.boundsType = .characters && !validUtf8 input then "unmodelled"
-    else if (kv.get? "wf").isSome && kv.get? "wf" != some "-" then "unmodelled"
-    else if (kv.get? "rf").isSome && kv.get? "rf" != some "-" then "unmodelled"
+    else if ((kv.optNat "wf").isSome || (kv.optNat "rf").isSome) then
+      -- faults are modelled at the level of `main`'s dispatch only
+      if (kv.get? "eng").getD "str" != "auto" then "unmodelled"
+      else
+        let lens := parseNats ((kv.get? "seg").getD "")
+        match kv.optNat "rf" with
+        | some k =>
+          match dispatchReadFault opt (kv.flag "M") (splitSegs (input.take k) lens) with
+          | some r => renderRun (deliver r (kv.optNat "wf"))
+          | none => "reject"
+        | none =>
+          match dispatch opt (kv.flag "M") (splitSegs input lens) with
+          | some r => renderRun (deliver r (kv.optNat "wf"))
+          | none => "reject"
     else
     match (kv.get? "eng").getD "str" with
     | "str" => renderRun (readAndCutStr opt input)
@@ -288,8 +302,12 @@ partial def loop (i o : IO.FS.Stream) : IO Unit := do
   let line ← i.getLine
   if line.isEmpty then return ()
   let kind := (line.trimAscii.toString.splitOn " ").headD ""
-  let spec := if kind == "cut" then
-      runSpec (parseKv ((line.trimAscii.toString.splitOn " ").filter (· ≠ "")).tail)
+  let kvs := parseKv ((line.trimAscii.toString.splitOn " ").filter (· ≠ "")).tail
+  let spec := if kind == "cut" then runSpec kvs
+    else if kind == "parse" then
+      match Spec.specParse (bytesToChars (unhex ((kvs.get? "s").getD ""))) with
+      | some l => "ok " ++ renderList l
+      | none => "fail"
     else "-"
   o.putStrLn (runCase line ++ "\t" ++ spec)
   o.flush
